@@ -7,60 +7,65 @@
 (* class not covered stays rejected (VIOLATION).                                      *)
 EXTENDS Parser, TLC
 
-AnyVariant == {"-", "exact", "zero", "plus1", "p31", "max"}
+AnyVariant == {"-", "exact", "zero", "one", "minus1", "plus1", "p31", "max"}
 AllKinds == {"b", "t", "s", "m", "a", "c", "r", "R"}
 (* every kind that changes the encoding: the two unbounded-output findings (KF8, KF9) are    *)
 (* triggered by ANY malformed stream that decodes to a match with a huge length              *)
 MutKinds == {"t", "s", "m", "a", "c", "r", "R"}
+(* size class (MiB) of the allocation that failed.  KF8 / KF9 grow their OUTPUT until the     *)
+(* allocator refuses the doubling at 1 GiB: a request of any other size in the same parsers  *)
+(* (e.g. a buffer reserved straight from a length field) is a different defect.  KF9 extends *)
+(* the ~1 GiB output by one more match (at most a few tens of MiB): 1024..1100 MiB.           *)
+AnyAlloc == 0..2147483647
 
 (* the table: one row per (finding, outcome it shows as); generated from the outcome classes *)
 (* observed on the pinned tree (quick and thorough tier)                                     *)
 KFTable == {
     [id |-> "C15-KF1", outcome |-> "oom",
      parsers |-> {"complex.meta.array4", "complex.meta.btreemap", "complex.meta.btreeset", "complex.meta.option", "complex.meta.result", "complex.meta.tuple2", "complex.raw.btreemap", "complex.raw.option", "complex.raw.tuple2", "din.reader.lp_bytes", "din.reader.lp_string", "din.reader.read_vec", "din.slice.lp_bytes", "din.slice.lp_string", "din.slice.read_string", "din.slice.read_vec", "smartptr.box_string", "smartptr.rc_string"},
-     variants |-> {"-", "p31"}, kinds |-> {"a", "b", "c", "m", "r", "s", "t"}],
+     variants |-> {"-", "p31"}, kinds |-> {"a", "b", "c", "m", "r", "s", "t"}, allocs |-> AnyAlloc],
     [id |-> "C15-KF1", outcome |-> "panic",
      parsers |-> {"din.reader.read_vec", "din.slice.read_string", "din.slice.read_vec"},
-     variants |-> {"max"}, kinds |-> {"a", "b", "c", "m", "r", "s", "t"}],
+     variants |-> {"max"}, kinds |-> {"a", "b", "c", "m", "r", "s", "t"}, allocs |-> AnyAlloc],
     [id |-> "C15-KF2", outcome |-> "oom",
      parsers |-> {"vie.compact.i64seq", "vie.compact.u64seq", "vie.delta.i64seq", "vie.delta.u64seq", "vie.group.i64seq", "vie.group.u64seq", "vie.leb128.i64seq", "vie.leb128.u64seq", "vie.prefixfree.i64seq", "vie.prefixfree.u64seq", "vie.simd.i64seq", "vie.simd.u64seq", "vie.zigzag.i64seq"},
-     variants |-> {"-"}, kinds |-> {"c", "m"}],
+     variants |-> {"-"}, kinds |-> {"c", "m"}, allocs |-> AnyAlloc],
     [id |-> "C15-KF2", outcome |-> "panic",
      parsers |-> {"vie.compact.i64seq", "vie.delta.i64seq", "vie.group.i64seq", "vie.leb128.i64seq", "vie.prefixfree.i64seq", "vie.simd.i64seq", "vie.zigzag.i64seq"},
-     variants |-> {"-"}, kinds |-> {"m"}],
+     variants |-> {"-"}, kinds |-> {"m"}, allocs |-> AnyAlloc],
     [id |-> "C15-KF3", outcome |-> "oom",
      parsers |-> {"complex.batch.meta", "complex.batch.raw", "complex.meta.hashmap", "complex.meta.hashset", "complex.raw.hashmap", "complex.raw.hashset", "smartptr.box_vec_string", "smartptr.rc_vec_u32"},
-     variants |-> {"-"}, kinds |-> {"c", "m", "s"}],
+     variants |-> {"-"}, kinds |-> {"c", "m", "s"}, allocs |-> AnyAlloc],
     [id |-> "C15-KF4", outcome |-> "oom",
      parsers |-> {"huff.ctx.deserialize.o0", "huff.ctx.deserialize.o1", "huff.ctx.deserialize.o2"},
-     variants |-> {"-"}, kinds |-> {"c", "m", "s"}],
+     variants |-> {"-"}, kinds |-> {"c", "m", "s"}, allocs |-> AnyAlloc],
     [id |-> "C15-KF5", outcome |-> "oom",
      parsers |-> {"comp.huffman.decompress", "huff.ctx.decode.o0", "huff.ctx.decode.o1", "huff.ctx.decode.o2", "huff.ctx.decode_x1", "huff.ctx.decode_x2", "huff.ctx.decode_x4", "huff.ctx.decode_x8", "huff.decode"},
-     variants |-> {"-", "p31"}, kinds |-> {"a", "b", "c", "m", "r", "s", "t"}],
+     variants |-> {"-", "p31"}, kinds |-> {"a", "b", "c", "m", "r", "s", "t"}, allocs |-> AnyAlloc],
     [id |-> "C15-KF5", outcome |-> "panic",
      parsers |-> {"huff.ctx.decode.o0", "huff.ctx.decode.o1", "huff.ctx.decode.o2", "huff.ctx.decode_x1", "huff.ctx.decode_x2", "huff.ctx.decode_x4", "huff.ctx.decode_x8", "huff.decode"},
-     variants |-> {"max"}, kinds |-> {"a", "b", "c", "m", "r", "s", "t"}],
+     variants |-> {"max"}, kinds |-> {"a", "b", "c", "m", "r", "s", "t"}, allocs |-> AnyAlloc],
     [id |-> "C15-KF6", outcome |-> "oom",
      parsers |-> {"comp.rans.decompress", "rans.decode.x1", "rans.decode.x2", "rans.decode.x4", "rans.decode.x8"},
-     variants |-> {"-", "p31"}, kinds |-> {"a", "b", "c", "m", "s", "t"}],
+     variants |-> {"-", "p31"}, kinds |-> {"a", "b", "c", "m", "s", "t"}, allocs |-> AnyAlloc],
     [id |-> "C15-KF6", outcome |-> "panic",
      parsers |-> {"rans.decode.x1", "rans.decode.x2", "rans.decode.x4", "rans.decode.x8"},
-     variants |-> {"max"}, kinds |-> {"a", "b", "c", "m", "s", "t"}],
+     variants |-> {"max"}, kinds |-> {"a", "b", "c", "m", "s", "t"}, allocs |-> AnyAlloc],
     [id |-> "C15-KF7", outcome |-> "abort",
      parsers |-> {"zipoffset.load_from_reader"},
-     variants |-> {"-"}, kinds |-> {"m", "s"}],
+     variants |-> {"-"}, kinds |-> {"m", "s"}, allocs |-> AnyAlloc],
     [id |-> "C15-KF8", outcome |-> "oom",
      parsers |-> {"comp.dictionary.decompress", "dict.decompress", "dict.opt.decompress"},
-     variants |-> {"-"}, kinds |-> MutKinds],
+     variants |-> {"-"}, kinds |-> MutKinds, allocs |-> {1024}],
     [id |-> "C15-KF9", outcome |-> "oom",
-     parsers |-> {"simdlz77.decompress", "simdlz77.global.decompress", "simdlz77.x1.decompress", "simdlz77.x2.decompress", "simdlz77.x4.decompress", "simdlz77.x8.decompress"},
-     variants |-> {"-"}, kinds |-> MutKinds],
+     parsers |-> {"simdlz77.cfg.high_performance.decompress", "simdlz77.cfg.low_latency.decompress", "simdlz77.cfg.maximum_parallelism.decompress", "simdlz77.cfg.with_dictionary.decompress", "simdlz77.decompress", "simdlz77.global.decompress", "simdlz77.x1.decompress", "simdlz77.x2.decompress", "simdlz77.x4.decompress", "simdlz77.x8.decompress"},
+     variants |-> {"-"}, kinds |-> MutKinds, allocs |-> 1024..1100],
     [id |-> "C15-KF10", outcome |-> "oom",
      parsers |-> {"simdenc.varint.decode_batch"},
-     variants |-> {"p31"}, kinds |-> {"a", "b", "c", "m", "r", "s", "t"}],
+     variants |-> {"p31"}, kinds |-> {"a", "b", "c", "m", "r", "s", "t"}, allocs |-> AnyAlloc],
     [id |-> "C15-KF10", outcome |-> "panic",
      parsers |-> {"simdenc.varint.decode_batch"},
-     variants |-> {"max"}, kinds |-> {"a", "b", "c", "m", "r", "s", "t"}]
+     variants |-> {"max"}, kinds |-> {"a", "b", "c", "m", "r", "s", "t"}, allocs |-> AnyAlloc]
 }
 
 (* the enabled deviations (literal set: tools/sync_known.py removes the ids of findings whose  *)
@@ -77,6 +82,8 @@ Covers(id, e, subj, o) ==
         /\ e.variant \in r.variants
         /\ e.kind \in r.kinds
         /\ o = r.outcome
+        /\ \A j \in 1..Len(e.bad) : e.bad[j].o = o => e.bad[j].alloc_mb \in r.allocs
+        /\ o = "oom" => e.bad_unlisted = 0        \* every failed allocation is listed and was looked at
 
 BadClasses(e) == {o \in Outcomes \ Allowed : e.outcomes[o] > 0}
 
